@@ -322,7 +322,9 @@ Print Assumptions C06_hilbert_sched_indep.
    reduction is applied to values outside the exactness premises:
      sums        -- integers whose absolute values add up to at most 2^53
                     (KMeans.sum_ok_f64; per coordinate for points);
-     comparisons -- neither NaN nor -0.0 (KMeans.val_ok_f64).
+     comparisons -- max_by / min_by: no NaN and not both 0.0 and -0.0 in the list
+                    (KMeans.cmp_ok_f64); bounding box: neither NaN nor -0.0
+                    (KMeans.val_ok_f64).
    Theorem: if the checked run under SOME family of trees raises no flag, then
    ANY TWO families of split trees give the same result (same partition, or the
    same panic).  The flag is evaluated on every correspondence case (class 2 of
@@ -332,7 +334,7 @@ Print Assumptions C06_hilbert_sched_indep.
    (Flocq: f64 `+` is exact on integers below 2^53). *)
 Theorem C06_kmeans_sched_indep : forall lg ex T0 T1 T2 P rot D cfg points weights part,
   KMeans.kmeans (KMeansCollect.F64g lg ex)
-    (KMeans.reds_chk (KMeansCollect.F64g lg ex) KMeans.sum_ok_f64 KMeans.val_ok_f64 T0 P) rot D cfg points weights part
+    (KMeans.reds_chk (KMeansCollect.F64g lg ex) KMeans.sum_ok_f64 KMeans.val_ok_f64 KMeans.cmp_ok_f64 T0 P) rot D cfg points weights part
     <> Panic 99 ->
   KMeans.kmeans (KMeansCollect.F64g lg ex) (KMeans.reds_tree (KMeansCollect.F64g lg ex) T1 P) rot D cfg points weights part =
   KMeans.kmeans (KMeansCollect.F64g lg ex) (KMeans.reds_tree (KMeansCollect.F64g lg ex) T2 P) rot D cfg points weights part.
@@ -343,7 +345,7 @@ Print Assumptions C06_kmeans_sched_indep.
    value of every schedule *)
 Theorem C06_kmeans_checked_run : forall lg ex T1 T2 P rot D cfg points weights part r,
   KMeans.kmeans (KMeansCollect.F64g lg ex)
-    (KMeans.reds_chk (KMeansCollect.F64g lg ex) KMeans.sum_ok_f64 KMeans.val_ok_f64 T1 P) rot D cfg points weights part = r ->
+    (KMeans.reds_chk (KMeansCollect.F64g lg ex) KMeans.sum_ok_f64 KMeans.val_ok_f64 KMeans.cmp_ok_f64 T1 P) rot D cfg points weights part = r ->
   r <> Panic 99 ->
   KMeans.kmeans (KMeansCollect.F64g lg ex) (KMeans.reds_tree (KMeansCollect.F64g lg ex) T2 P) rot D cfg points weights part = r.
 Proof. exact KMeansCollect.kmeans_c06_f64_chk. Qed.
@@ -352,11 +354,11 @@ Print Assumptions C06_kmeans_checked_run.
 (* every arithmetic: the same statement from five premises on the arithmetic
    (sums of accepted lists and max / min / box of accepted values do not depend
    on the tree); axiom-free *)
-Theorem C06_kmeans_sched_indep_any_arithmetic : forall A sum_ok val_ok,
+Theorem C06_kmeans_sched_indep_any_arithmetic : forall A sum_ok val_ok cmp_ok,
   KMeansSched.sums_exact A sum_ok -> KMeansSched.vsums_exact A sum_ok ->
-  KMeansSched.max_decided A val_ok -> KMeansSched.min_decided A val_ok -> KMeansSched.bbox_decided A val_ok ->
+  KMeansSched.max_decided A cmp_ok -> KMeansSched.min_decided A cmp_ok -> KMeansSched.bbox_decided A val_ok ->
   forall T0 T1 T2 P rot D cfg points weights part,
-  KMeans.kmeans A (KMeans.reds_chk A sum_ok val_ok T0 P) rot D cfg points weights part <> Panic 99 ->
+  KMeans.kmeans A (KMeans.reds_chk A sum_ok val_ok cmp_ok T0 P) rot D cfg points weights part <> Panic 99 ->
   KMeans.kmeans A (KMeans.reds_tree A T1 P) rot D cfg points weights part =
   KMeans.kmeans A (KMeans.reds_tree A T2 P) rot D cfg points weights part.
 Proof. exact KMeansSched.kmeans_sched_indep. Qed.
@@ -370,8 +372,8 @@ Proof. exact (fun lg ex => conj (KMeansF64Sum.sums_exact_f64 lg ex _ _ _ _) (KMe
 Print Assumptions C06_kmeans_f64_sums_exact.
 
 Theorem C06_kmeans_f64_comparisons_decided : forall lg ex,
-  KMeansSched.max_decided (KMeansCollect.F64g lg ex) KMeans.val_ok_f64 /\
-  KMeansSched.min_decided (KMeansCollect.F64g lg ex) KMeans.val_ok_f64.
+  KMeansSched.max_decided (KMeansCollect.F64g lg ex) KMeans.cmp_ok_f64 /\
+  KMeansSched.min_decided (KMeansCollect.F64g lg ex) KMeans.cmp_ok_f64.
 Proof. exact (fun lg ex => conj (KMeansOrder.max_decided_f64 lg ex _ _ _ _) (KMeansOrder.min_decided_f64 lg ex _ _ _ _)). Qed.
 Print Assumptions C06_kmeans_f64_comparisons_decided.
 
@@ -384,7 +386,7 @@ Example C06_kmeans_nonvacuous :
   /\ KMeans.kmeans KMeansCollect.Fw (KMeans.reds_tree KMeansCollect.Fw KMeansCollect.ex_tree KMeans.P_id) (Some KMeansCollect.ex_id) 2
       KMeansCollect.ex_cfg KMeansCollect.ex_pts KMeansCollect.ex_ws [0;2;2;2;2;2;2;2;1]%N
     = Ok [0;0;0;2;2;2;1;1;1]%N
-  /\ KMeans.kmeans KMeansCollect.Fw (KMeans.reds_chk KMeansCollect.Fw KMeans.sum_ok_f64 KMeans.val_ok_f64 KMeans.T_seq KMeans.P_id)
+  /\ KMeans.kmeans KMeansCollect.Fw (KMeans.reds_chk KMeansCollect.Fw KMeans.sum_ok_f64 KMeans.val_ok_f64 KMeans.cmp_ok_f64 KMeans.T_seq KMeans.P_id)
       (Some KMeansCollect.ex_id) 2 KMeansCollect.ex_cfg KMeansCollect.ex_pts KMeansCollect.ex_ws [0;2;2;2;2;2;2;2;1]%N
     = Ok [0;0;0;2;2;2;1;1;1]%N.
 Proof. exact KMeansCollect.kmeans_example. Qed.
